@@ -90,6 +90,26 @@ Theorem C20_isolation : forall (L Op Out : Type) (Lo : lops L Op Out) (cs : list
 Proof. intros L Op Out Lo. exact (isolation_all Lo). Qed.
 Print Assumptions C20_isolation.
 
+(* Command lines `c1|c2|...` (ex_line: every command of the line runs, then ONE closing lbuf_modified; bufs_switch ends the
+   command for the buffer being left -- repo commit 75e4c2f): the history theorem at the granularity of single commands
+   inside lines.  For every list of command lines within 16 buffers, a buffer that is not current at the start either is
+   still in a slot >= 1 at the end, unchanged (modulo id), or there is a first command -- possibly in the MIDDLE of a line --
+   after which it is the current buffer, unchanged, with the globals equal to its saved view.  Lines of one command are
+   ex_command (run_lines_single), and well-formedness is preserved by every line. *)
+Theorem C20_isolation_lines : forall (L Op Out : Type) (Lo : lops L Op Out) (ls : list (list (cmd Op))) (s : st L) (j : nat) (b : buf L),
+  length (bufs s) = NB -> (1 <= j)%nat -> nth_error (bufs s) j = Some (Some b) -> safe_lines Lo s ls ->
+  (exists j' b', (1 <= j')%nat /\ nth_error (bufs (run_lines Lo s ls)) j' = Some (Some b') /\ same_mod_id Lo b b')
+  \/ (exists pre l1 c l2 post b', ls = pre ++ (l1 ++ c :: l2) :: post /\
+        slot0 (fst (ex_exec Lo (fst (exec_all Lo (run_lines Lo s pre) l1)) c)) = Some b' /\ same_mod_id Lo b b' /\
+        xv (fst (ex_exec Lo (fst (exec_all Lo (run_lines Lo s pre) l1)) c)) = b_view b).
+Proof. intros L Op Out Lo. exact (isolation_lines Lo). Qed.
+Print Assumptions C20_isolation_lines.
+Theorem C20_lines : forall (L Op Out : Type) (Lo : lops L Op Out),
+  (forall cs s, run_lines Lo s (map (fun c => [c]) cs) = run Lo s cs) /\
+  (forall cs (s : st L), wf s -> wf (fst (ex_line Lo s cs))).
+Proof. intros L Op Out Lo. split; [apply run_lines_single|apply wf_line]. Qed.
+Print Assumptions C20_lines.
+
 (* :b n reaches a buffer with id n (the first slot holding that id; ids are unique in reachable states), as it was
    left, with its saved view loaded and without touching the file system; and such a slot is found whenever one exists. *)
 Theorem C20_reaches_id : forall (L Op Out : Type) (Lo : lops L Op Out) (s : st L) (n : Z) (i : nat),
